@@ -28,6 +28,8 @@ var nvPresets = [][]int{
 	{0, 4, 2, 0, 1, 0}, // own vote: genuine PREPARE signatures under a PREPREPARE reference for another (consumer-invalid) block, which is re-proposed
 	{0, 4, 2, 0, 0, 0},
 	{0, 4, 0, 0, 1, 0}, // ... for another consumer-valid block
+	{0, 5, 9, 0, 0, 0}, // own vote: a lower genuine certificate under a PREPREPARE reference claiming a later view; its block is re-proposed
+	{0, 5, 9, 0, 0, 1},
 	{0, 4, 0, 0, 0, 1}, // ... genuine votes (with their proofs) kept, the adversary's vote first
 	{0, 4, 1, 0, 0, 1},
 	{0, 3, 0, 0, 0, 1},
@@ -102,7 +104,7 @@ func drawByz(t *rapid.T, w *sim.World, o simOpts) *sim.ByzSpec {
 	}
 	if strat == "nv" || strat == "vc" {
 		p[0] = rapid.IntRange(0, 4).Draw(t, "mode0")
-		p[1] = rapid.IntRange(0, 4).Draw(t, "mode1")
+		p[1] = rapid.IntRange(0, 5).Draw(t, "mode1")
 		if strat == "nv" {
 			p[2] = rapid.SampledFrom([]int{0, 0, 1, 2, 3, 4, 5, 8, 9, 9, 9}).Draw(t, "proposal")
 			p[3] = rapid.SampledFrom([]int{0, 0, 0, 0, 1, 2, 3}).Draw(t, "ppmode")
@@ -120,7 +122,11 @@ func drawByz(t *rapid.T, w *sim.World, o simOpts) *sim.ByzSpec {
 	}
 	spec := &sim.ByzSpec{Strat: strat, As: as, To: to, H: h, V: v, P: p}
 	// now and then everything is signed for ANOTHER instance id (cross-chain replay), preferably for a future height (cache path)
-	if rapid.IntRange(0, 11).Draw(t, "foreign-instance") == 0 {
+	foreignEvery := 12
+	if o.Focus == "C03" || o.Focus == "C08" || o.Focus == "C17" {
+		foreignEvery = 4
+	}
+	if rapid.IntRange(0, foreignEvery-1).Draw(t, "foreign-instance") == 0 {
 		spec.Inst = uint64(rapid.IntRange(1, 2).Draw(t, "instoff"))
 		if rapid.Bool().Draw(t, "foreign-future") && spec.H < w.Cfg.MaxHeight {
 			spec.H++
